@@ -825,8 +825,6 @@ class BosonicBackend(BaseBosonic):
 
         See :meth:`.BaseBackend.state`.
 
-        For the bosonic backend, mode indices are sorted in ascending order.
-
         Returns:
             :class:`~.BosonicState`: object containing all state information
         """
@@ -844,7 +842,8 @@ class BosonicBackend(BaseBosonic):
                 (np.array([[]]), np.array([[]]), np.array([])), len(modes), 0, mode_names=mode_names
             )
 
-        mode_ind = np.sort(np.append(2 * np.array(modes), 2 * np.array(modes) + 1))
+        # (x, p) pairs of the requested modes, in the order requested (as mode_names states)
+        mode_ind = np.array([[2 * m, 2 * m + 1] for m in modes]).flatten()
 
         weights = self.circuit.weights
         covmats = self.circuit.covs[:, mode_ind, :][:, :, mode_ind]
